@@ -74,7 +74,8 @@ def gen_base(rng, tier, index):
             "first_follows_parent": index % 2 == 0,
             "thread_reads_during_fork": (index // 4) % 9 if index % 4 == 1 else None,
             "iter_across_fork": rng.randrange(50) if index % 4 in (0, 3) else None,
-            "other_object": [None, "parent_before_fork", "child_first"][index % 3]}
+            "other_object": [None, "parent_before_fork", "child_first"][index % 3],
+            "fd_tight": index % 6 == 0, "global_start_method": ["spawn", "forkserver"][index % 2] if index % 5 == 2 else None}
 
 
 def findings(case, result, res):
@@ -82,6 +83,8 @@ def findings(case, result, res):
     res.count("reads_compared", total)
     res.count("reading_processes", nprocs)
     for e in result.get("events", []):
+        if e["ev"] == "descriptor_table_full":
+            res.count("runs_forking_with_a_full_descriptor_table")
         if e["ev"] == "side_thread_gated":
             res.count("runs_forking_while_a_parent_thread_is_inside_a_read" if e.get("gated") else "runs_where_the_parent_thread_was_not_held")
             if e.get("gated"):
